@@ -197,6 +197,14 @@ class Parser:
     # ---- Statements ----
 
     def _parse_statement(self) -> Optional[Node]:
+        """Parse a statement and record where it starts (reported by runtime errors)."""
+        start = self.current
+        node = self._parse_statement_body()
+        if node is not None and node.loc is None:
+            self._loc(node, start)
+        return node
+
+    def _parse_statement_body(self) -> Optional[Node]:
         """Parse a statement."""
         if self._match(TokenType.SEMICOLON):
             return EmptyStatement()
@@ -305,8 +313,11 @@ class Parser:
                 raise self._error("Unexpected end of input in block")
             else:
                 # Parse a non-block statement
+                start = self.current
                 stmt = self._parse_non_block_statement()
                 if stmt is not None:
+                    if stmt.loc is None:
+                        self._loc(stmt, start)
                     block_stack[current_depth].append(stmt)
 
         # Should not reach here
